@@ -64,4 +64,6 @@ THEOREMS = [
     ("DastardV.Lemmas.C08Oracle", "DastardV.C08.firstMismatch_none_get"),
     ("DastardV.Lemmas.C08Oracle", "DastardV.C08.increasing_none_iff"),
     ("DastardV.Lemmas.C08Oracle", "DastardV.C08.noOverlap_none_iff"),
+    ("DastardV.Lemmas.C08Oracle", "DastardV.C08.firstSome_none_iff"),
+    ("DastardV.Lemmas.C08Oracle", "DastardV.C08.chkC08_sound"),
 ]
